@@ -10,6 +10,9 @@ CLAIMED = {
  'C01': ('exploration', 'deterministic simulation of the chain against scripted parties: injected acceptance draws (crafted generator states) + scripted Target/Proposal tables incl. -inf/+inf/NaN; exact kernel extraction by bisection over the injected draw',
          'The real MHMarkovChain::step runs against table-driven Target/Proposal stubs (finite values, -inf, +inf, NaN, asymmetric q, zero moves) while the acceptance draw is injected through the public rng field (uniform raw words, the extremes, the three representable draws bracketing the threshold, constructed exact ties). Every step is compared with the reference rule evaluated in the same float type (f64/f32, float and integer states, bitwise state preservation). On random finite spaces the exact acceptance probability of every ordered pair is extracted by bisection and detailed balance, zero-density exclusion and pi P = pi are checked.',
          'Trusts: the crafted xoshiro256++ state (self-checked against rand at start-up); dyadic table values make all sums exact, generic reals within 16 ulp of the threshold are counted ambiguous and not judged.', '3/C01'),
+ 'C02': ('exploration', 'deterministic simulation of the randomness and target seams: traced momenta/uniforms of every step fed to an independent f64 leapfrog + Metropolis reference, per row, with condition-aware tolerances; reversibility and row-independence metamorphic runs',
+         'Real HMC::step on Autodiff<NdArray<f64>> and <f32> against dual targets (burn code for the library, analytic f64 log-density and gradient for the reference): Gaussians d 1..16 with random SPD precision, the library Gaussian/Rosenbrock targets, Student-t, quartic, funnel; 1..32 chains, eps 1e-4..1e3 incl. unstable, L 0..64, histories of 1..10 steps (steps after rejections counted). Per row: proposal = exactly L velocity-Verlet steps from the traced (x, p) (also by target-evaluation count), decision ln u <= H - H_prop from the traced quantities, new row bitwise the proposal or bitwise the old row, no influence between rows (one row perturbed, same draws), integrator reversible.',
+         'Trusts: the draw trace (hook H5) reports the tensors actually used; tolerance from the measured amplification of a few-ulp input perturbation through the reference; rows whose tolerance exceeds 5% of the scale and decisions inside the rounding margin are counted, not judged.', '3/C02'),
  'C05': ('exploration', 'deterministic simulation against a recording Conditional stub: call-history oracle (order, exactly-once, freshest state) + exact kernel invariance on small joint tables; multi-chain runs under seeded schedules',
          'The real Gibbs step runs against a recording conditional that returns unique values: per step exactly d calls, each coordinate once, every given equal to the freshest state, the state after the step exactly the returned values, other chains untouched (checked for the multi-chain sampler under W simulated workers). On random joint tables over {0,1,2}^d (d<=4) the one-step kernel is assembled from the true full conditionals evaluated at the given the library actually passed and pi K = pi is checked exactly.',
          'Trusts: the recording stub; reversed or permuted sweep orders are deliberately not violations (the statement fixes once-each and freshest-state, not the order).', '3/C05'),
